@@ -374,6 +374,77 @@ Definition read_num (large : bool) (data : bytes) : option (N * bytes) :=
 Definition at_off (vals : bytes) (off : N) : option bytes :=
   if lenN vals <? off then None else Some (skipn (N.to_nat off) vals).
 
+(* object: value_header = is_large << 4 | (field_id_size-1) << 2 | (offset_size-1);
+   [rec] decodes a nested value *)
+Definition dec_object (rec : bytes -> option value) (d : dict) (vh : N) (rest : bytes) : option value :=
+  let osz := osz_of (vh mod 4) in
+  let fsz := osz_of ((vh / 4) mod 4) in
+  let large := (vh / 16) mod 2 =? 1 in
+  match read_num large rest with
+  | Some (n, r1) =>
+      if lenN r1 <? n then None else
+      match read_uints (N.to_nat n) fsz r1 with
+      | Some (ids, r2) =>
+          match read_uints (S (N.to_nat n)) osz r2 with
+          | Some (offs, r3) =>
+              match takeN (last offs 0) r3 with
+              | Some (vals, _) =>
+                  match map_opt (fun io : N * N =>
+                           match nth_error d (N.to_nat (fst io)) with
+                           | Some name =>
+                               match at_off vals (snd io) with
+                               | Some sub =>
+                                   match rec sub with
+                                   | Some x => Some (name, x)
+                                   | None => None
+                                   end
+                               | None => None
+                               end
+                           | None => None
+                           end) (combine ids offs) with
+                  | Some fields =>
+                      if nodupb (map fst fields) then Some (VObject fields) else None
+                  | None => None
+                  end
+              | None => None
+              end
+          | None => None
+          end
+      | None => None
+      end
+  | None => None
+  end.
+
+(* array: value_header = is_large << 2 | (offset_size-1) *)
+Definition dec_array (rec : bytes -> option value) (vh : N) (rest : bytes) : option value :=
+  let osz := osz_of (vh mod 4) in
+  let large := (vh / 4) mod 2 =? 1 in
+  match read_num large rest with
+  | Some (n, r1) =>
+      if lenN r1 <? n then None else
+      match read_uints (S (N.to_nat n)) osz r1 with
+      | Some (offs, r3) =>
+          match takeN (last offs 0) r3 with
+          | Some (vals, _) =>
+              match map_opt (fun off : N =>
+                       match at_off vals off with
+                       | Some sub => rec sub
+                       | None => None
+                       end) (removelast offs) with
+              | Some elems => Some (VArray elems)
+              | None => None
+              end
+          | None => None
+          end
+      | None => None
+      end
+  | None => None
+  end.
+
+Definition dec_short (vh : N) (rest : bytes) : option value :=
+  match takeN vh rest with Some (s, _) => Some (VString s) | None => None end.
+
+(* value_metadata byte: basic_type in the low 2 bits, value_header above *)
 Fixpoint dec (fuel : nat) (d : dict) (data : bytes) {struct fuel} : option value :=
   match fuel with
   | O => None
@@ -381,75 +452,11 @@ Fixpoint dec (fuel : nat) (d : dict) (data : bytes) {struct fuel} : option value
       match data with
       | [] => None
       | h :: rest =>
-          let basic := h mod 4 in
-          let vh := h / 4 in
-          match basic with
-          | 0 => dec_prim vh rest
-          | 1 => match takeN vh rest with Some (s, _) => Some (VString s) | None => None end
-          | 2 =>
-              (* object: value_header = is_large << 4 | (field_id_size-1) << 2 | (offset_size-1) *)
-              let osz := osz_of (vh mod 4) in
-              let fsz := osz_of ((vh / 4) mod 4) in
-              let large := (vh / 16) mod 2 =? 1 in
-              match read_num large rest with
-              | Some (n, r1) =>
-                  if lenN r1 <? n then None else
-                  match read_uints (N.to_nat n) fsz r1 with
-                  | Some (ids, r2) =>
-                      match read_uints (S (N.to_nat n)) osz r2 with
-                      | Some (offs, r3) =>
-                          match takeN (last offs 0) r3 with
-                          | Some (vals, _) =>
-                              match map_opt (fun io : N * N =>
-                                       match nth_error d (N.to_nat (fst io)) with
-                                       | Some name =>
-                                           match at_off vals (snd io) with
-                                           | Some sub =>
-                                               match dec f d sub with
-                                               | Some x => Some (name, x)
-                                               | None => None
-                                               end
-                                           | None => None
-                                           end
-                                       | None => None
-                                       end) (combine ids offs) with
-                              | Some fields =>
-                                  if nodupb (map fst fields) then Some (VObject fields) else None
-                              | None => None
-                              end
-                          | None => None
-                          end
-                      | None => None
-                      end
-                  | None => None
-                  end
-              | None => None
-              end
-          | _ =>
-              (* array: value_header = is_large << 2 | (offset_size-1) *)
-              let osz := osz_of (vh mod 4) in
-              let large := (vh / 4) mod 2 =? 1 in
-              match read_num large rest with
-              | Some (n, r1) =>
-                  if lenN r1 <? n then None else
-                  match read_uints (S (N.to_nat n)) osz r1 with
-                  | Some (offs, r3) =>
-                      match takeN (last offs 0) r3 with
-                      | Some (vals, _) =>
-                          match map_opt (fun off : N =>
-                                   match at_off vals off with
-                                   | Some sub => dec f d sub
-                                   | None => None
-                                   end) (removelast offs) with
-                          | Some elems => Some (VArray elems)
-                          | None => None
-                          end
-                      | None => None
-                      end
-                  | None => None
-                  end
-              | None => None
-              end
+          match h mod 4 with
+          | 0 => dec_prim (h / 4) rest
+          | 1 => dec_short (h / 4) rest
+          | 2 => dec_object (dec f d) d (h / 4) rest
+          | _ => dec_array (dec f d) (h / 4) rest
           end
       end
   end.
